@@ -22,7 +22,7 @@ TECHNIQUE = ('token-soup / damage-edit enumeration x {3 copy_all channels, deduc
              'fallback classes; oracle: exactly one tract carrying the whole preprocessed text, error flag unless TRS valid')
 LEVEL_TEXT = ('Forced copy_all is checked through all three documented channels on every text of the C03 space; the fallback is '
               'checked on four classes built from sub-vocabularies that provably lack a Twp/Rge, a section word, a section number '
-              'or a colon (all token strings to depth 3/4); the no-duplicate invariant is checked on every (text, mode). The two '
+              'or a colon (all token strings to depth 3/4), each under 3 (quick) / 6 (thorough) additional settings (sec_within, sec_colon_cautious, segment, ...); the no-duplicate invariant is checked on every (text, mode). The two '
               'historic failures (layout given at init/config ignored; fallback tract emitted twice) need <= 3 tokens.')
 LEVEL_NOTE = ('Trusted: the class membership of the constructed texts follows from the sub-vocabularies (checked when the module is '
               'loaded) and the edge-separator predicate in mc/props/c11.py.')
@@ -71,7 +71,7 @@ def units(tier):
 
 def space(tier):
     d = soup.DEPTH[tier]
-    return {'bound': soup.space_text(tier) + f"; forced copy_all through 4 channel variants on the soup/damage/special texts; "
+    return {'bound': soup.space_text(tier) + f"; forced copy_all through 7 channel variants (incl. combinations with sec_within / segment / colon modes) on the soup/damage/special texts; "
                      f"fallback classes: token strings to depth {d} over sub-vocabularies of {len(V_NO_TWPRGE)}, "
                      f"{len(V_NO_SECWORD)}, {len(V_NO_SECNUM)}, {len(V_NO_COLON)} tokens", 'caps_hit': []}
 
@@ -106,7 +106,7 @@ def edge_only(full, desc):
     return False
 
 
-CHANNELS = ['kw', 'cfg', 'parse_nocommit', 'parse_commit']
+CHANNELS = ['kw', 'cfg', 'parse_nocommit', 'parse_commit', 'cfg+sec_within', 'cfg+segment,sec_colon_required', 'kw+sec_within,parse_qq']
 
 
 def forced(acc, text):
@@ -121,6 +121,16 @@ def forced(acc, text):
                 lay = d.current_layout
             elif ch == 'cfg':
                 d = _p.PLSSDesc(text, config='copy_all')
+                tr = list(d.tracts)
+                pp = d.pp_desc
+                lay = d.current_layout
+            elif ch.startswith('cfg+'):
+                d = _p.PLSSDesc(text, config='copy_all,' + ch[4:])
+                tr = list(d.tracts)
+                pp = d.pp_desc
+                lay = d.current_layout
+            elif ch.startswith('kw+'):
+                d = _p.PLSSDesc(text, layout='copy_all', config=ch[3:])
                 tr = list(d.tracts)
                 pp = d.pp_desc
                 lay = d.current_layout
@@ -187,12 +197,23 @@ def dup_invariant(acc, text, mode):
         acc.guard('deduced_copy_all')
 
 
-def fallback_class(acc, cls, text):
+EXTRA_CFGS = [None, 'sec_within', 'segment', 'segment,sec_within', 'sec_colon_cautious', 'ocr_scrub,parse_qq']
+
+
+def fallback_class(acc, cls, text, extra=None):
     cfg = 'sec_colon_required' if cls == 'no_colon_required' else None
+    if extra:
+        cfg = extra if cfg is None else cfg + ',' + extra
     if cls == 'no_colon_required':
         text = 'T154N-R97W ' + text
-    key = f"class|{cls}|{text}"
-    case = {'k': 'class', 'cls': cls, 'text': text}
+    key = f"class|{cls}|{cfg}|{text}"
+    case = {'k': 'class', 'cls': cls, 'text': text, 'extra': extra}
+    if cls == 'no_colon_required' and extra == 'sec_colon_cautious':
+        return      # 'required' and 'cautious' together: required wins; same as no extra
+    if extra and 'segment' in extra and cls != 'no_twprge':
+        # segmenting splits the text at every Twp/Rge and lets each chunk fall back on its own (that is the feature);
+        # 'one tract with the entire text' is only defined for it when there is no Twp/Rge to split at
+        return
     try:
         d = _p.PLSSDesc(text, config=cfg)
         tr = list(d.tracts)
@@ -245,7 +266,8 @@ def run_unit(unit, tier):
                  'no_colon_required': V_NO_COLON}[unit['cls']]
         depth = soup.DEPTH[tier] if unit['cls'] != 'no_colon_required' else soup.DEPTH[tier] + 1
         for text in class_texts(vocab, unit['first'], depth):
-            fallback_class(acc, unit['cls'], text)
+            for extra in (EXTRA_CFGS if tier == 'thorough' else EXTRA_CFGS[:2] + EXTRA_CFGS[4:5]):
+                fallback_class(acc, unit['cls'], text, extra)
     else:
         last = None
         for text, mode in soup.unit_cases(unit, tier):
@@ -268,7 +290,7 @@ def replay(case):
         t = case['text']
         if case['cls'] == 'no_colon_required' and t.startswith('T154N-R97W '):
             t = t[len('T154N-R97W '):]
-        fallback_class(acc, case['cls'], t)
+        fallback_class(acc, case['cls'], t, case.get('extra'))
     return acc.viol
 
 
